@@ -254,6 +254,7 @@ def run(chk: Check):
     rule_s6(chk)
     rule_s6_memo(chk, ir, tr)
     from ..pyflow import Index
+    rule_adjusted_location(chk, repo.ir_x())   # hand-adjusted spans must skip exactly the token they skip
     rule_s3_recursion(chk, Index())
     rule_s8(chk, Index())
     from .c02 import rule_x7
